@@ -722,6 +722,12 @@ func (vm *VirtualMachine) eval(ctx context.Context) error {
 				if err == nil {
 					vm.push(module)
 				} else {
+					// A module of that name that exists and fails is an error
+					// like any other: its code has run, in part
+					var unavailable *moduleUnavailableError
+					if !errors.As(err, &unavailable) {
+						return err
+					}
 					// otherwise, the name is a symbol inside a module
 					module, err := vm.importModule(ctx, filepath.Join(from...))
 					if err != nil {
@@ -1152,16 +1158,27 @@ func (vm *VirtualMachine) reloadCode(main *compiler.Code) *code {
 	return newWrappedMain
 }
 
+// moduleUnavailableError says that the importer could not supply a module.
+// An error of any other kind from importModule comes from running the
+// module's code.
+type moduleUnavailableError struct {
+	err error
+}
+
+func (e *moduleUnavailableError) Error() string { return e.err.Error() }
+
+func (e *moduleUnavailableError) Unwrap() error { return e.err }
+
 func (vm *VirtualMachine) importModule(ctx context.Context, name string) (*object.Module, error) {
 	if module, ok := vm.modules[name]; ok {
 		return module, nil
 	}
 	if vm.importer == nil {
-		return nil, fmt.Errorf("imports are disabled")
+		return nil, &moduleUnavailableError{err: fmt.Errorf("imports are disabled")}
 	}
 	module, err := vm.importer.Import(ctx, name)
 	if err != nil {
-		return nil, err
+		return nil, &moduleUnavailableError{err: err}
 	}
 	// Activate a new frame to evaluate the module code
 	baseFP := vm.fp
